@@ -25,6 +25,12 @@ def run(ctx):
         check_iterator(ctx, F, A)
         check_decode(ctx, F, A)
         check_generic(ctx, F)
+        from .decoder import Anchors, check_final_reset, NOD
+        an = Anchors(F)
+        A.invariant(NOD)
+        ctx.rule("R-C15-FINAL", "finalize() and reset() report the same pending-byte count from every decoder state (what the reader "
+                 "front-ends attach to an I/O error / EOF equals what the iterator front-ends report as trailing DiscardedBytes)")
+        check_final_reset(ctx, A, F, an, "R-C15-FINAL")
         check_no_swallow(ctx, F, body_of(F, RD, "read"), ("_push_byte",))
         check_no_swallow(ctx, F, body_of(F, ITER, "next"), ("_push_byte",))
         check_no_swallow(ctx, F, F.bodies["transport::decode::decode"], ("push_byte",))
